@@ -329,7 +329,11 @@ impl ValueExpr for FunctionCallExpr {
                         .unwrap()
                     }
                     LhsValue::Array(mut arr) => {
-                        if !arr.is_empty() {
+                        if arr.is_empty() {
+                            // Nothing to map, but the result is still an array
+                            // of the function's return type.
+                            arr = Array::new(return_type);
+                        } else {
                             arr = arr.filter_map_to(return_type, |elem| call(&mut f(elem)));
                         }
                         arr
